@@ -555,7 +555,7 @@ def main_c12():
     ck.assumptions = ["AlignerContract: the aligner returns a valid, cost-optimal end-to-end alignment (monitored, not proved)",
                       "cost comparison with the input CIGAR only when the input CIGAR is itself a valid alignment of the two slices"]
     ck.canon = ["log output ignored"]
-    ck.lean_build(["Gaftools.Props.C12", "Gaftools.Props.C12b", "Gaftools.Props.TieA2"])
+    ck.lean_build(["Gaftools.Props.C12", "Gaftools.Props.C12b", "Gaftools.Props.TieA2", "Gaftools.Props.TieA19"])
     ck.audit("C12.lean")
     tmp = tempfile.mkdtemp(prefix="gtv-c12-")
     try:
@@ -577,7 +577,7 @@ def main(prop):
                       "a process that exits with status 0 has flushed everything it put",
                       "put/flush/get are atomic with respect to a worker's death (a kill inside a pipe write is outside the model)"]
     ck.canon = ["records identified by read name", "log output ignored"]
-    ck.lean_build(["Gaftools.Props.C11b", "Gaftools.Props.TieA3"])
+    ck.lean_build(["Gaftools.Props.C11b", "Gaftools.Props.TieA3", "Gaftools.Props.TieA18"])
     ck.audit("%s.lean" % prop)
     import gaftools.cli.realign as R
     tmp = tempfile.mkdtemp(prefix="gtv-realign-")
